@@ -167,10 +167,19 @@ func runTestdrvHistoryV(c *mon.Ctx, h []int, viaListenTo bool, variant int) {
 	var got []deliv
 	var stopFn func()
 	sendID := 0
+	replying := false
 	onMsg := func(id int, msg []byte) {
 		got = append(got, deliv{id, append([]byte(nil), msg...)})
 		received[id]++
-		if selfStop && received[id] == 1+id%3 {
+		if selfStop && !replying && received[id] == 1+id%3 {
+			if id%2 == 0 && out.IsOpen() {
+				// the listener answers first (a reply sent while the out-port is open and it is itself still active: it gets
+				// it, nested, before this callback goes on), then ends itself
+				replying = true
+				out.Send([]byte{0x92, byte(id), 0x7F})
+				replying = false
+				c.Count("testdrv_replies_sent_from_inside_the_callback_before_its_own_stop", 1)
+			}
 			stopFn() // returns here: from now on the listener must not be called again
 			c.Count("testdrv_stops_from_inside_the_callback", 1)
 		}
@@ -281,6 +290,9 @@ func runTestdrvHistoryV(c *mon.Ctx, h []int, viaListenTo bool, variant int) {
 					n++
 					if selfStop && n == 1+m.active%3 {
 						selfStopped = true
+						if m.active%2 == 0 {
+							expect = append(expect, []byte{0x92, byte(m.active), 0x7F})
+						}
 						break
 					}
 				}
